@@ -32,7 +32,7 @@ import json
 import logging
 
 from harness import vloop
-from harness.c02_util import PROTO_CLASS, id_token
+from harness.c02_util import PROTO_CLASS, id_token, resp_len, wire_bytes
 from harness.rig import Rig
 
 FILLER_ID = 990099
@@ -120,7 +120,7 @@ def run_case(repo, case):
                 filler['jsonrpc'] = '2.0'
             rig.feed_json(filler)
         payload = case['single'] if 'single' in case else members
-        rig.feed(json.dumps(payload).encode() + b'\n')
+        rig.feed(wire_bytes(payload, case.get('raw')) + b'\n')
         events = []
         if pause is not None:
             if via == 'write':
@@ -191,7 +191,7 @@ def to_rec(jr, case, obs):
         msgs = [w[1] for w in writes]
         if kind[0] == 'req':
             result, _ = c02.result_for(jr, 0, 0 in case.get('errs', ()))
-            rec['len'] = len(inforce.response_message(result, kind[1]))
+            rec['len'] = resp_len(inforce, result, kind[1])
             rec['items'] = ['r']
             if msgs and writes[0][0] < comp[0][0]:
                 rec['raised'] = c02.decode_entry(msgs[0])     # answered before its result exists
@@ -214,7 +214,7 @@ def to_rec(jr, case, obs):
             rec['lens'].append(0)
         else:
             result, _ = c02.result_for(jr, m, m in case.get('errs', ()))
-            rec['lens'].append(len(inforce.response_message(result, kinds[m][1])))
+            rec['lens'].append(resp_len(inforce, result, kinds[m][1]))
     for t, msg, n in writes:
         done = sum(1 for tc, _m in comp if tc <= t)
         entries = [c02.decode_entry(x) for x in msg] if isinstance(msg, list) \
@@ -444,6 +444,31 @@ def grid(level, protos=('v2', 'loose')):
                         continue
                     cases.append({'proto': proto, 'max': 0, 'pt': PT, 'members': members,
                                   'dur': durs, 'nerrs': nerrs, 'pause': a, 'resume': b, 'via': via})
+    # request ids that are non-finite floats (raw wire text: `1e999` is a legal JSON number that
+    # json.loads reads as +inf; `Infinity` / `NaN` are tokens it accepts), 1e308 as finite control:
+    # singles on v1 / v2 / Loose and batches (alone, duplicated, next to an ordinary id, in an
+    # invalid member) with handlers that return at once / later / after the processing timeout
+    inf, nan = float('inf'), float('nan')
+    for a, b, via in list(windows(False))[::2]:
+        for proto in ('v1', 'v2', 'loose'):
+            style = 'v2' if proto == 'v2' else 'loose'
+            for idv, tok in ((inf, '1e999'), (-inf, None), (nan, None), (1e308, None)):
+                for d in (0, 2, 12):
+                    cases.append({'proto': proto, 'max': 0, 'pt': PT, 'single': _req(style, 0, idv),
+                                  'dur': [d], 'nerrs': [], 'pause': a, 'resume': b, 'via': via,
+                                  'raw': {'0': tok} if tok else {}})
+        for ids, toks, durs in (((inf,), ('1e999',), (2,)), ((inf, 7), ('1e999', None), (0, 2.1)),
+                                ((7, -inf), (None, '-1e999'), (2, 0)), ((nan, nan), (None, None), (2, 5.1)),
+                                ((inf, inf, 1e308), ('1e999', None, None), (5, 2.1, 0)),
+                                ((nan, 7), (None, None), (12, 2.1))):
+            for style in ('v2', 'loose'):
+                members = [_req(style, m, i) for m, i in enumerate(ids)]
+                raw = {str(m): t for m, t in enumerate(toks) if t}
+                cases.append({'proto': style, 'max': 0, 'pt': PT, 'members': members, 'dur': list(durs),
+                              'pause': a, 'resume': b, 'via': via, 'raw': raw})
+                bad = members + [dict(_req(style, len(ids), ids[0]), method=1)]
+                cases.append({'proto': style, 'max': 0, 'pt': PT, 'members': bad,
+                              'dur': list(durs) + [None], 'pause': a, 'resume': b, 'via': via, 'raw': raw})
     # duplicate ids and a size limit (no handler times out: the length of the library's
     # SERVER_BUSY response is not something the harness knows)
     for a, b, via in windows(False):
